@@ -1924,7 +1924,7 @@ func lengthPrimCheck(c *Ctx, dec *ssa.Function) {
 //	if k > uint64(len(buf)-n) { return nil, errors.New("bad length") }
 //
 // set this to true and its removal becomes a violation.
-const armLenBound = false
+const armLenBound = true
 
 // lenBoundCheck (LENBOUND): the narrowing of Uvarint's result #0 to int is
 // dominated by a comparison of that result with a quantity derived from
